@@ -27,7 +27,7 @@ def generate_edits_from_text(original_text: str, modified_text: str) -> List[Doc
 
     # 4. Decode back to Text
     dmp.diff_charsToLines(diffs_encoded, token_array)
-    diffs = diffs_encoded
+    diffs = _split_at_separators(diffs_encoded)
 
     edits = []
     current_original_index = 0
@@ -116,13 +116,61 @@ def generate_edits_from_text(original_text: str, modified_text: str) -> List[Doc
     return edits
 
 
+# A whitespace run that contains a line break (paragraph / row separator, line break) or the
+# table cell separator: structure of the extracted text, never part of one edit.
+_SEPARATOR = re.compile(r"(\s*\n\s*| \| )")
+# Word-level tokens; the table cell separator is one token so that a change never cuts it
+# (and a Markdown heading prefix likewise: both are structure of the extracted text, not words)
+_TOKEN_PATTERN = r"((?m:^#+ )| \| |\n+|[^\S\n]+|\w+|[^\w\s])"
+
+
+def _split_at_separators(diffs: List[Tuple[int, str]]) -> List[Tuple[int, str]]:
+    """
+    The semantic cleanup merges two small changes on both sides of a short equality into one
+    replacement - also across a paragraph or cell separator ('end.\n\nStart' -> 'END.\n\nBEGIN').
+    Such a replacement cannot be applied to the document. When the deleted and the inserted
+    text contain the same separators, the replacement is split into one change per segment.
+    """
+    out: List[Tuple[int, str]] = []
+    i = 0
+    while i < len(diffs):
+        if i + 1 < len(diffs) and diffs[i][0] == -1 and diffs[i + 1][0] == 1:
+            del_parts = _SEPARATOR.split(diffs[i][1])
+            ins_parts = _SEPARATOR.split(diffs[i + 1][1])
+            if len(del_parts) > 1 and len(del_parts) == len(ins_parts) and del_parts[1::2] == ins_parts[1::2]:
+                for k in range(0, len(del_parts), 2):
+                    # tokens the two segments have in common at either end stay untouched
+                    d_tok = [t for t in re.split(_TOKEN_PATTERN, del_parts[k]) if t]
+                    i_tok = [t for t in re.split(_TOKEN_PATTERN, ins_parts[k]) if t]
+                    lead = 0
+                    while lead < min(len(d_tok), len(i_tok)) and d_tok[lead] == i_tok[lead]:
+                        lead += 1
+                    trail = 0
+                    while trail < min(len(d_tok), len(i_tok)) - lead and d_tok[-1 - trail] == i_tok[-1 - trail]:
+                        trail += 1
+                    pieces = [
+                        (0, "".join(d_tok[:lead])),
+                        (-1, "".join(d_tok[lead : len(d_tok) - trail])),
+                        (1, "".join(i_tok[lead : len(i_tok) - trail])),
+                        (0, "".join(d_tok[len(d_tok) - trail :])),
+                    ]
+                    out.extend(piece for piece in pieces if piece[1])
+                    if k + 1 < len(del_parts):
+                        out.append((0, del_parts[k + 1]))
+                i += 2
+                continue
+        out.append(diffs[i])
+        i += 1
+    return out
+
+
 def _words_to_chars(text1: str, text2: str) -> Tuple[str, str, List[str]]:
     """
     Splits text into words/tokens and encodes them as unique Unicode characters.
     """
     token_array: List[str] = []
     token_hash: Dict[str, int] = {}
-    split_pattern = r"(\s+|\w+|[^\w\s])"
+    split_pattern = _TOKEN_PATTERN
 
     def encode_text(text: str) -> str:
         tokens = [t for t in re.split(split_pattern, text) if t]
